@@ -1,7 +1,18 @@
 package main
 
-import "verif/harness/internal/policyx"
+import (
+	"strconv"
+
+	"verif/harness/internal/policyx"
+)
 
 func init() {
-	register("replay-policy", func(a []string) { policyx.Replay(a[0]) })
+	register("replay-policy", func(a []string) {
+		shard, n := 0, 1
+		if len(a) >= 3 {
+			shard, _ = strconv.Atoi(a[1])
+			n, _ = strconv.Atoi(a[2])
+		}
+		policyx.Replay(a[0], shard, n)
+	})
 }
